@@ -165,6 +165,46 @@ def h08c(c):
         c.cover("assigned")
 
 
+def h08f(c):
+    """settlement after the matched size of an order was re-stated by the framework itself: a MARKET_ON_CLOSE lay matched at the starting price,
+    another runner removed in-play (the real middleware scales liability and matched size), then the market closes: profit follows the order's
+    matched size and average price AS REPORTED at settlement, back and lay with the same reported fill stay opposite"""
+    from flumine.events import events
+    with cm.config_set(simulated=True):
+        fl, (client,), (strategy,) = cm.new_sim()
+        mw = fl._market_middleware[0]
+        mtype = c.choose("market_type", ["WIN", "PLACE"])
+        md = cm.market_definition(market_type=mtype)
+        bk1 = cm.book([cm.runner(1, adjustment_factor=20.0), cm.runner(2, adjustment_factor=30.0), cm.runner(3, adjustment_factor=10.0)], version=7, md=md, inplay=True, bsp_reconciled=True)
+        market = cm.add_market(fl, bk1)
+        mw(market)
+        liab = c.pick("liability", [2.0, 10.0, 37.5, 200.0])
+        sp = c.pick("sp", [1.5, 3.0, 5.0, 11.0])
+        o = cm.mk_moc(strategy, "LAY", liab, selection_id=2)
+        cm.place_resting(fl, market, strategy, o, 101)
+        size0 = c.cents("matched_size", 1, 1000000)
+        o.simulated.matched = [[cm.T0_MS, sp, size0]]
+        o.simulated.size_matched, o.simulated.average_price_matched = size0, sp
+        o.simulated._bsp_reconciled = True
+        f = c.cents("adjustment_factor", 250, 9900)
+        bk2 = cm.book([cm.runner(1, status="REMOVED", adjustment_factor=f), cm.runner(2, adjustment_factor=30.0), cm.runner(3, adjustment_factor=10.0)], version=8, md=md,
+                      pt_ms=cm.T0_MS + 1000, inplay=True, bsp_reconciled=True)
+        with c.guard("removal"):
+            market(bk2)
+            mw(market)
+            fl._process_simulated_orders(market)
+        m, ap = o.simulated.size_matched, o.simulated.average_price_matched
+        c.observe("size_matched_after_removal", m)
+        status = c.choose("runner_status", ["WINNER", "LOSER"])
+        cb = cm.book([cm.runner(1, status="REMOVED"), cm.runner(2, status=status), cm.runner(3, status="LOSER" if status == "WINNER" else "WINNER")], status="CLOSED",
+                     md=cm.market_definition(market_type=mtype, status="CLOSED"))
+        with c.guard("close"):
+            market.blotter.process_closed_market(market, cb)
+        exp = -(m * (ap - 1)) if status == "WINNER" else m
+        c.ob("profit-follows-the-reported-matched-size", c.close(o.simulated.profit, exp, HALF), reported_size=str(m))
+        c.cover("rescaled-then-settled")
+
+
 def h08b(c, n_orders=2):
     """Market.cleared(client): profit = sum over that client's matched orders, bet count, commission only on a net win"""
     with cm.config_set(simulated=True):
@@ -242,6 +282,7 @@ HARNESSES = [
     Harness("H08e", _h18c, quick=dict(N=3, focus="C08"), thorough=dict(N=5, focus="C08"), pattern="P3 bounded history (schedule symbolic)", requires=["cleared", "replaced"], selfcheck=False, outside=OUT),
     Harness("H08a-S", h08a, quick=dict(mode="S"), pattern="P1 kernel-with-oracle", requires=["settled", "line-tie", "dead-heat", "each-way", "unmatched"], outside=OUT),
     Harness("H08a-P", h08a, quick=dict(mode="P"), pattern="P1 kernel-with-oracle", requires=["settled", "dead-heat", "each-way"], outside=OUT),
+    Harness("H08f", h08f, pattern="P3 short history (real middleware re-states the matched size, then settlement)", requires=["rescaled-then-settled"], outside=OUT),
     Harness("H08c", h08c, pattern="P1 kernel-with-oracle", requires=["assigned"], outside=OUT),
     Harness("H08d", h08d, pattern="P3 short history", requires=["resettled", "amended-result"], outside=OUT),
     Harness("H08b", h08b, quick=dict(n_orders=2), thorough=dict(n_orders=3), pattern="P1 kernel-with-oracle", requires=["cleared"], outside=OUT),
